@@ -232,10 +232,6 @@ class Interp:
                 feas.append(i)
         if not feas:
             raise PathEnd('no feasible alternative at ' + label)
-        if len(feas) == 1:
-            # forced: no decision recorded, constraint is implied (or unknown) -- add it
-            self.add(conds[feas[0]])
-            return feas[0]
         for j in feas[1:]:
             p.alts.append(p.trace + [j])
         p.trace.append(feas[0])
@@ -251,25 +247,50 @@ class Interp:
         return self.decide([c, z3.Not(c)], label) == 0
 
     def concretize(self, e, label='', lo=None, hi=None, maxn=64):
-        """fork over the feasible values of integer expression e"""
+        """fork over the feasible values of integer expression e.
+
+        Decisions are recorded by VALUE (('v', value) / ('x', excluded values)) so that re-execution of a
+        prefix is independent of which model the solver happens to return."""
         if isinstance(e, int):
             return e
         e = z3.simplify(e)
         if z3.is_bv_value(e) or z3.is_int_value(e):
             return e.as_long()
-        for _ in range(maxn):
-            r = self.check()
-            if r != z3.sat:
-                if r == z3.unknown:
-                    raise Inconclusive('solver unknown in concretize ' + label)
-                raise PathEnd('infeasible')
-            m = self.path.solver.model()
-            v = m.eval(e, model_completion=True)
-            vv = v.as_long()
-            eq = (e == v)
-            if self.decide([eq, z3.Not(eq)], label) == 0:
-                return vv
-        raise Inconclusive('concretize: more than %d values for %s' % (maxn, label))
+        p = self.path
+        excluded = []
+        if p.pos < len(p.prefix):
+            d = p.prefix[p.pos]
+            p.pos += 1
+            excluded = list(d[2]) if d[0] == 'v' else list(d[1])
+            for v in excluded:
+                self.add(e != v)
+            if d[0] == 'v':
+                p.trace.append(d)
+                self.add(e == d[1])
+                return d[1]
+            # ('x', excluded): pick a fresh value below; the prefix element is rewritten in its 'v' form
+            p.prefix = p.prefix[:p.pos - 1]
+            p.pos -= 1
+        if len(excluded) >= maxn:
+            raise Inconclusive('concretize: more than %d values for %s' % (maxn, label))
+        r = self.check()
+        if r != z3.sat:
+            if r == z3.unknown:
+                raise Inconclusive('solver unknown in concretize ' + label)
+            raise PathEnd('infeasible')
+        m = p.solver.model()
+        vv = m.eval(e, model_completion=True).as_long()
+        other = self.check(e != vv)
+        if other == z3.unknown:
+            p.unknown_branches += 1
+        if other != z3.unsat:
+            p.alts.append(p.trace + [('x', excluded + [vv])])
+        d = ('v', vv, tuple(excluded))
+        p.trace.append(d)
+        p.prefix.append(d)
+        p.pos += 1
+        self.add(e == vv)
+        return vv
 
     def fresh_name(self, base):
         self.path.fresh += 1
@@ -1099,6 +1120,9 @@ class Interp:
                 c = self.int_binop('<' if name == 'min' else '>', a, r, t, t, '')
                 if isinstance(c, bool):
                     r = a if c else r
+                elif is_intmode(a) or is_intmode(r):
+                    r = z3.If(c, self.to_intmode(a, 64, True) if not isinstance(a, int) else z3.IntVal(a),
+                              self.to_intmode(r, 64, True) if not isinstance(r, int) else z3.IntVal(r))
                 else:
                     bits, _ = t.intinfo()
                     r = z3.If(c, tobv(a, bits), tobv(r, bits))
